@@ -47,7 +47,17 @@ class Ctx:
         return list(quick) if self.tier == "quick" else ["000", "001", "010", "011", "100", "101", "110", "111"]
 
     def gen(self, cfg, salt=0):
-        return CaseGen(self.data["schemas"][cfg], (self.seed * 1000003 + int(cfg, 2) * 7919 + salt) & 0xFFFFFFFF)
+        # when the proof / tie is broken we search for a failing input among the messages the
+        # *specification* allows: generate from the pinned-tree baseline schema, not from the
+        # (possibly changed) regenerated one
+        data = self.data
+        if getattr(self, "use_baseline", False):
+            base = os.path.join(ROOT, "tools", "baseline_schema.json")
+            if os.path.exists(base):
+                if not hasattr(self, "_baseline"):
+                    self._baseline = json.load(open(base))
+                data = self._baseline
+        return CaseGen(data["schemas"][cfg], (self.seed * 1000003 + int(cfg, 2) * 7919 + salt) & 0xFFFFFFFF)
 
 
 def pipe(args, lines):
@@ -674,9 +684,139 @@ def cases_c01(ctx, boost):
     return out
 
 
+# =============================================================================== C12
+def bounded_sites(g, t, path=()):
+    """(path, kind, limit) for every bounded leaf / list under t; path = child indices"""
+    r = g.s.res(t)
+    out = []
+    if "leaf" in r:
+        l = r["leaf"]
+        if l == "bytes" and r.get("cap") is not None:
+            out.append((path, "bytes", r["cap"]))
+        elif l == "byteArray":
+            out.append((path, "byteArray", r["n"]))
+        elif l == "str" and r.get("cap") is not None:
+            out.append((path, "str", r["cap"]))
+        elif l == "uint":
+            out.append((path, "uint", {"u8": 2 ** 8, "u32": 2 ** 32, "u64": 2 ** 64}[r["w"]]))
+        elif l == "i32":
+            out.append((path, "i32", 2 ** 31))
+        elif l == "coseEcdh":
+            out.append((path, "cose", 32))
+    elif "vec" in r:
+        out.append((path, "vec", r["vec"]))
+        out += bounded_sites(g, r["elem"], path + (0,))
+    elif "filtered" in r:
+        out += bounded_sites(g, r["elem"], path + (0,))
+    elif "fields" in r:
+        for i, f in enumerate(r["fields"]):
+            if f["mode"]["m"] == "skipLong":
+                out.append((path + (i,), "icon", f["mode"]["cap"]))
+            elif f["mode"]["m"] == "trunc":
+                continue
+            else:
+                out += bounded_sites(g, f["ty"], path + (i,))
+    return out
+
+
+def item_at(g, t, item, path, fn):
+    """rebuild `item` (the wire item of a value of type t) with fn applied at `path`"""
+    if not path:
+        return fn(item)
+    r = g.s.res(t)
+    i = path[0]
+    if "vec" in r or "filtered" in r:
+        if item[0] != 'arr' or not item[1]:
+            return None
+        sub = item_at(g, r["elem"], item[1][0], path[1:], fn)
+        return None if sub is None else ('arr', [sub] + item[1][1:])
+    if "fields" in r:
+        f = r["fields"][i]
+        key = ('u', r["indexed"] + i) if "indexed" in r else ('text', f["key"].encode())
+        ents = list(item[1])
+        for j, (k, v) in enumerate(ents):
+            if k == key:
+                sub = item_at(g, f["ty"], v, path[1:], fn)
+                if sub is None:
+                    return None
+                ents[j] = (k, sub)
+                return ('map', ents)
+        return None
+    return None
+
+
+def cases_c12(ctx, boost):
+    out = []
+    for cfg in ctx.cfgs(("000", "111")):
+        g = ctx.gen(cfg)
+        rng = g.rng
+        for variant, payload in ctx.data["schemas"][cfg]["variants"]["request_variants"]:
+            if not payload or payload == "vendor":
+                continue
+            t = {"named": payload}
+            for path, kind, lim in bounded_sites(g, t):
+                for attempt in range(6):
+                    v = g.rand_val(t, p_opt=1.0)
+                    base = g.wire_item(t, v, lossy=0.0)
+                    variants = []
+                    if kind in ("bytes", "byteArray", "str", "icon"):
+                        for n in sorted({max(lim - 1, 0), lim, lim + 1, lim + 300, 0}):
+                            payload_b = casegen.rand_utf8(rng, n) if kind in ("str", "icon") else rng.randbytes(n)
+                            variants.append((f"{kind} len {n - lim:+d}", ('text' if kind in ("str", "icon") else 'bytes', payload_b)))
+                    elif kind == "uint":
+                        for n in sorted({0, lim - 2, lim - 1, lim, 2 ** 32, 2 ** 63, 2 ** 64 - 1}):
+                            if n < 2 ** 64:
+                                variants.append((f"uint {n}", ('u', n)))
+                    elif kind == "i32":
+                        for n in (0, lim - 2, lim - 1, lim, 2 ** 32, 2 ** 63):
+                            variants.append((f"i32 +{n}", ('u', n)))
+                            variants.append((f"i32 -{n}", ('neg', n)))
+                    elif kind == "vec":
+                        pass
+                    elif kind == "cose":
+                        for n in (31, 32, 33, 100):
+                            variants.append((f"cose x {n}", ('map', [(('u', 1), ('u', 2)), (('u', 3), ('neg', 24)), (('neg', 0), ('u', 1)),
+                                                                     (('neg', 1), ('bytes', rng.randbytes(n))), (('neg', 2), ('bytes', rng.randbytes(32)))])))
+                    done = 0
+                    for tag, new in variants:
+                        it = item_at(g, t, base, path, lambda _old, new=new: new)
+                        if it is None:
+                            continue
+                        done += 1
+                        for cb in CMD_BYTE.get(variant, [])[:1]:
+                            out.append(Case("req", cfg, f"req {cfg} {cb:02x}{casegen.enc_item(it).hex()}", tag=f"{variant} {tag}"))
+                    if kind == "vec":
+                        def grow(old, lim=lim):
+                            return old
+                        for n in sorted({max(lim - 1, 0), lim, lim + 1, lim + 20}):
+                            def setlen(old, n=n):
+                                if old[0] != 'arr' or not old[1]:
+                                    return None
+                                return ('arr', [old[1][i % len(old[1])] for i in range(n)])
+                            it = item_at(g, t, base, path, setlen)
+                            if it is not None:
+                                done += 1
+                                for cb in CMD_BYTE.get(variant, [])[:1]:
+                                    out.append(Case("req", cfg, f"req {cfg} {cb:02x}{casegen.enc_item(it).hex()}", tag=f"{variant} list len {n - lim:+d}"))
+                    if done:
+                        break
+    return out
+
+
 NOT_YET = {}
 
 PROPS = {
+    "C12": {"ns": "C12", "cases": cases_c12,
+            "level_text": "Proof. G-CAP reader theorems (Ctap/CapThm.lean) for every integer / length below 2^64 / 2^32: Bytes<N>, "
+                          "String<N>, ByteArray<N>, u8/u32/usize, i32 (either sign) and Vec<T,N> accept exactly the values within "
+                          "the limit and return them unchanged, and refuse the next larger one with a plain CBOR error; instantiated "
+                          "at user id 64, rp id 256, parameter type 32, allow list 10, exclude list 16, salt 80 / 32, COSE coordinate "
+                          "32, rpIdHash = 32, u8, u32, i32; user icon 128 dropped-not-rejected (C13.user_icon). "
+                          "over_limit_in_message lifts a member-level rejection to the whole parameter map after any readable "
+                          "prefix (first fault wins). Obligations: 20 member sites × 8 configurations carry exactly these readers.",
+            "rule": "every bounded member found by walking the request schemas × {limit-1, limit, limit+1, far beyond; integer "
+                    "thresholds up to 2^64-1, both signs for i32} inside an otherwise complete message of each command",
+            "assumptions": ["usize = 64 bit"]},
     "C01": {"ns": "C01", "cases": cases_c01,
             "level_text": "Proof. (1) Obligations: the five request schemas regenerated from the source equal the specification's "
                           "parameter tables (key = position + 1, CBOR type, capacity, required/optional, nested text keys) in all "
